@@ -13,6 +13,7 @@ CONSTANTS
   WithErrors = FALSE
   WithIdle = FALSE
   WithSleep = TRUE
+  TimeoutTypes = {}
   KeepLog = FALSE
 INVARIANT TypeOK
 INVARIANT LockOK
